@@ -390,7 +390,7 @@ def all_masks(A: int):
 
 def gen_dqn(rng: random.Random, tier: str):
     cases = []
-    reps = 4 if tier == "quick" else 12
+    reps = 4 if tier == "quick" else 30
     for A in (1, 2, 3, 4, 5):
         for eps in (0.0, 0.5, 1.0):
             for rep in range(reps):
@@ -534,7 +534,7 @@ def run_ma(case):
 
 def gen_ma(rng: random.Random, tier: str):
     cases = []
-    reps = 1 if tier == "quick" else 6
+    reps = 1 if tier == "quick" else 12
     for algo in ("RainbowDQN", "CQN", "NeuralUCB", "NeuralTS"):
         for A in (1, 2, 3, 4, 5):
             for rep in range(reps):
@@ -714,7 +714,7 @@ def run_macont(case):
 
 def gen_ma_multi(rng: random.Random, tier: str):
     cases = []
-    n = 10 if tier == "quick" else 40
+    n = 10 if tier == "quick" else 100
     for algo in ("MADDPG", "MATD3"):
         for it in range(n):
             A0, A1 = rng.choice([(3, 2), (2, 4), (5, 3)]) if tier != "quick" else rng.choice([(3, 2), (4, 3)])
@@ -838,7 +838,7 @@ def run_rescale(case):
 
 def gen_cont(rng: random.Random, tier: str):
     cases = []
-    n = 8 if tier == "quick" else 24
+    n = 8 if tier == "quick" else 80
     for algo in ("DDPG", "TD3"):
         for it in range(n):
             act = ["Tanh", "Sigmoid", "Softsign", "Tanh"][it % 4]
@@ -857,7 +857,7 @@ def gen_cont(rng: random.Random, tier: str):
                     cases.append({"suite": "cont", "algo": algo, "act": act, "bounds": bi, "rows": copy.deepcopy(rows),
                                   "training": tr, "noise": noise, "single": single, "ou": bool(it % 5 == 4),
                                   "seed": rng.randrange(1 << 30)})
-    n = 21 if tier == "quick" else 84
+    n = 21 if tier == "quick" else 210
     for it in range(n):
         act = (ACTS + [None, "ReLU"])[it % 7]
         lo, hi = copy.deepcopy(rng.choice(BOUNDS))
@@ -1026,7 +1026,7 @@ def run_pgmask(case):
 
 def gen_pg(rng: random.Random, tier: str):
     cases = []
-    n = 6 if tier == "quick" else 18
+    n = 6 if tier == "quick" else 60
     for algo in ("PPO", "IPPO"):
         table = BOUNDS_IPPO if algo == "IPPO" else BOUNDS
         for it in range(n):
@@ -1057,7 +1057,7 @@ def gen_pg(rng: random.Random, tier: str):
             cases.append({"suite": "pgmask", "algo": algo, "kind": kind, "n": nn_, "rows": rows, "single": single,
                           "seed": rng.randrange(1 << 30)})
     # PPO with a squashing actor, evaluation mode (scale_action)
-    for it in range(2 if tier == "quick" else 8):
+    for it in range(2 if tier == "quick" else 20):
         bi = rng.randrange(len(BOUNDS))
         lo, hi = BOUNDS[bi]
         rows = [{"mu": [rng.choice([-16.0, -1.0, 0.0, 0.5, 16.0]) for _ in lo]} for _ in range(rng.randint(1, 3))]
@@ -1412,7 +1412,7 @@ def gen_sweep(rng: random.Random, tier: str):
         for kind in ag.ACTION_KINDS[algo]:
             fams = list(ag.OBS_FAMILIES) if tier == "thorough" else ["vector"] + rng.sample(["image", "dict", "tuple", "discrete"], 2)
             for fam in fams:
-                reps = 4 if tier == "quick" else 10
+                reps = 4 if tier == "quick" else 24
                 space_seed = rng.randrange(3)
                 for rep in range(reps):
                     cfgs.append({"suite": "sweep", "algo": algo, "kind": kind, "family": fam, "space_seed": space_seed,
@@ -1517,7 +1517,9 @@ def selftest(chk: Check) -> None:
     dqn_mod.DQN._get_action = no_mask_greedy
     try:
         sink: list = []
-        run_cases(chk, "selftest", [c for c in gen_dqn(rng, "quick") if c["eps"] == 0.0][:6], sink)
+        fixed = [{"suite": "dqn", "A": 3, "eps": 0.0, "seed": 1,
+                  "rows": [{"q": [7.0, 0.0, 1.0], "m": [0, 1, 1]}, {"q": [0.0, BIG, 1.0], "m": [1, 0, 1]}]}]
+        run_cases(chk, "selftest", fixed + [c for c in gen_dqn(rng, "quick") if c["eps"] == 0.0][:6], sink)
     finally:
         dqn_mod.DQN._get_action = orig
     if not any(p and "masked action" in p[0] for _, _, p in sink):
@@ -1541,7 +1543,9 @@ def selftest(chk: Check) -> None:
                  and c.get("noise") is not None]
         for c in cases:
             c["noise"] = [16.0] * len(c["noise"])
-        run_cases(chk, "selftest", cases, sink)
+        fixed = [{"suite": "cont", "algo": "DDPG", "act": "Tanh", "bounds": 0, "training": True, "seed": 2,
+                  "noise": [16.0, 16.0, -16.0], "rows": [{"h": [0.0, 0.5, -1.0]}, {"h": [1.0, 1.0, 1.0]}]}]
+        run_cases(chk, "selftest", fixed + cases[:4], sink)
     finally:
         ddpg_mod.DDPG.get_action = orig2
     if not any(p for _, _, p in sink):
@@ -1564,10 +1568,14 @@ def selftest(chk: Check) -> None:
         sink = []
         cases = [c for c in gen_cont(rng, "quick") if c["suite"] == "rescale" and c["act"] in ACTS
                  and all(isinstance(x, float) for x in c["lo"] + c["hi"]) and len(c["lo"]) > 1]
-        run_cases(chk, "selftest", cases, sink)
+        fixed = [{"suite": "rescale", "act": "Tanh", "lo": BOUNDS[0][0], "hi": BOUNDS[0][1], "rows": [[1.0, 1.0, 1.0]]}]
+        run_cases(chk, "selftest", fixed + cases[:6], sink)
         sink_b: list = []
-        cases_b = [c for c in gen_ma_multi(rng, "quick") if c["suite"] == "macont" and not c["training"]]
-        run_cases(chk, "selftest", cases_b, sink_b)
+        row = {"agent_0": {"h": [1.0, 1.0], "env": None}, "agent_1": {"h": [0.0, 1.0], "env": None},
+               "other_0": {"h": [1.0, 1.0, 1.0], "env": None}}
+        fixed_b = [{"suite": "macont", "algo": a, "bounds": [2, 0], "act": "Tanh", "rows": [row], "training": False,
+                    "single": False, "noise": None, "seed": 3} for a in ("MADDPG", "MATD3")]
+        run_cases(chk, "selftest", fixed_b, sink_b)
     finally:
         actors_mod.DeterministicActor.rescale_action = orig3
     if not sink or not any(p for _, _, p in sink_b):
